@@ -80,4 +80,10 @@ theorem round1_update_tail_pinned :
        "return nil"] ∧
     C13Sites.round1RandomNilGuard = true := ⟨rfl, rfl⟩
 
+/-- Every `Lock()` / `RLock()` in `model.GroupSignGenerator`, `groupNodeInfo` and the round file is
+    immediately followed by the matching `defer …Unlock()`: no return path can keep a lock (a kept
+    lock makes every later `AddWitnessSign` / `SignRecovered` block forever). -/
+theorem locks_are_deferred_unlocked :
+    C13Sites.lockWithoutDeferUnlock = [] ∧ 5 ≤ C13Sites.lockStatementsSeen := by decide
+
 end Rangers.Props.C13Facts
